@@ -361,6 +361,12 @@ class JokerSamples:
         for i in range(len(self)):
             yield self.get_orbit(i)
 
+    def __getstate__(self):
+        # the cached orbit template cannot be pickled and is rebuilt on demand
+        state = self.__dict__.copy()
+        state["_cache"] = {}
+        return state
+
     # Numpy reduce function
     def _apply(self, func):
         cls = self.__class__
